@@ -225,7 +225,9 @@ func (g *WeightedDirectedGraph) RemoveLine(fid, tid, id int64) {
 		delete(g.to[tid], fid)
 	}
 
-	g.lineIDs[fid][tid].Release(id)
+	if g.lineIDs[fid][tid] != nil {
+		g.lineIDs[fid][tid].Release(id)
+	}
 }
 
 // RemoveNode removes the node with the given ID from the graph, as well as any edges attached
